@@ -58,9 +58,9 @@ def build_solver(model, cfg=None, problem=None, **kw):
         log_level="ERROR",
     )
     if cfg.get("costs") is not None:
-        if cfg["vh"] == "max_regret":
+        if cfg["vh"] in ("max_regret", VH["max_regret"]):
             args["var_heuristic_params"] = cfg["costs"]
-        if cfg["dh"] == "min_cost":
+        if cfg["dh"] in ("min_cost", DH["min_cost"]):
             args["dom_heuristic_params"] = cfg["costs"]
     if cfg.get("decision") is not None:
         args["decision_domains"] = list(cfg["decision"])
